@@ -6,6 +6,7 @@ import (
 	"context"
 	"fmt"
 	"strconv"
+	"strings"
 	"sync"
 	"time"
 
@@ -62,7 +63,7 @@ var txStore *tikv.KVStore
 var txWrap *txTiKV
 var txN int
 
-// execTx: mode(0 2pc,1 async,2 1pc) causal aheadMs timeoutMs nkeys
+// execTx: mode(0 2pc,1 async,2 1pc) causal registrations(comma list of ms offsets / z) timeoutMs nkeys
 func execTx(f []string) {
 	if txStore == nil {
 		client, cluster, pdClient, err := testutils.NewMockTiKV("", nil)
@@ -76,7 +77,7 @@ func execTx(f []string) {
 			panic(err)
 		}
 	}
-	mode, causal, ahead, to, nk := pn(f[1]), f[2] == "1", pi(f[3]), pi(f[4]), pn(f[5])
+	mode, causal, to, nk := pn(f[1]), f[2] == "1", pi(f[4]), pn(f[5])
 	txn, err := txStore.Begin()
 	if err != nil {
 		panic(err)
@@ -90,8 +91,19 @@ func execTx(f []string) {
 			panic(err)
 		}
 	}
-	bound := oracle.ComposeTS(oracle.ExtractPhysical(txn.StartTS())+ahead, 0)
-	txn.SetCommitWaitUntilTSO(bound)
+	// f[3]: the sequence of registrations on this transaction: offsets (ms, relative to the start ts) or z = literal 0;
+	// the constraint the commit has to respect is the maximum of everything registered (computed here, not read back)
+	var bound uint64
+	for _, tok := range strings.Split(f[3], ",") {
+		var v uint64
+		if tok != "z" {
+			v = oracle.ComposeTS(oracle.ExtractPhysical(txn.StartTS())+pi(tok), 0)
+		}
+		txn.SetCommitWaitUntilTSO(v)
+		if v > bound {
+			bound = v
+		}
+	}
 	txn.SetCommitWaitUntilTSOTimeout(time.Duration(to) * time.Millisecond)
 	txWrap.mu.Lock()
 	a0, p0 := txWrap.async, txWrap.onepc
